@@ -558,7 +558,7 @@ def gen_line_seq(rng, maxlen=12):
     return kinds, texts
 
 
-def py_sections_spec(kinds, texts):
+def py_sections_spec(kinds, texts, eol="lf"):
     """the grammar: items up to and including the first error, as (tag, detail)"""
     out = []
     cur = None
@@ -566,8 +566,8 @@ def py_sections_spec(kinds, texts):
         if k == "U":
             out.append(("E", "utf8")); return out
         if k == "J":
-            if t.endswith(b"\r"):
-                t = t[:-1]   # followed by LF (sections_case sees to that) the last CR belongs to the terminator
+            if t.endswith(b"\r") and eol == "lf":
+                t = t[:-1]   # followed by LF (sections_case sees to that) the last CR belongs to the terminator; before CRLF it stays
             out.append(("E", "badline:" + ("h" if t.startswith(b"chain") else "d") + ":" + xtok(t))); return out
         if k == "B":
             if cur is not None:
@@ -605,6 +605,13 @@ def gen_C05(rng, tier):
         has_err = any(t == "E" for t, _ in py_sections_spec(kinds, texts))
         groups.append(group("with-error" if has_err else "error-free", "c05_sections", [case],
                             params={"kinds": kinds, "texts": [t.hex() for t in texts]}, nontrivial=len(kinds) > 1))
+        if rng.random() < 0.25 and texts:
+            # the same lines CRLF-terminated and delivered in pieces (1 byte at a time, two pieces, random pieces): the line
+            # sequence is what the grammar is about, not how the bytes arrive
+            data2 = b"\r\n".join(texts) + b"\r\n"
+            chunks = gen.composition(rng, data2, rng.choice(["bytes", "two", "rand", "rand"]))
+            groups.append(group("crlf-chunked", "c05_sections", ["sections " + gen.src_tok(data2, chunks)],
+                                params={"kinds": kinds, "texts": [t.hex() for t in texts], "eol": "crlf"}, nontrivial=len(kinds) > 1))
     if tier == "thorough":
         # exhaustive small scope: all strings over {B,H,N,T,J} up to length 6
         import itertools
@@ -636,7 +643,7 @@ def o_c05_sections(params, cases, outs):
     items = items[:-1]
     if len(items) > len(kinds) + 1:
         return "more items (%d) than lines+1 (%d)" % (len(items), len(kinds) + 1)
-    exp = py_sections_spec(kinds, texts)
+    exp = py_sections_spec(kinds, texts, params.get("eol", "lf"))
     # prefix up to and including the first error
     got = []
     for it in items:
